@@ -159,6 +159,19 @@ def main():
                         raiser(state["fault"])
                 walk(2)
                 return True
+            if op == "decorate_inside_call":
+                # functions are decorated WHILE a jaxtyped call is active (what the import hook does to every nested def, each time the
+                # outer function runs); their annotations mention a structure name the outer call has not bound: decoration is not a check
+                @jaxtyped(typechecker=tc)
+                def outer(x: alias):
+                    PT = PyTree[int, "Tq"]
+                    for deco in (beartype.beartype, typeguard.typechecked):
+                        @jaxtyped(typechecker=deco)
+                        def innerf(t: PT, u: Float[A, "n q"]):
+                            return 0
+                    raiser(state["fault"])
+                    return isinstance((1, 2), PyTree[int, "Tq"]) and isinstance(np.zeros((3, 9), "float32"), Float[A, "n q"])
+                return outer(np.zeros((3,), "float32"))
             if op == "generator_suspended":
                 # a generator made by a decorated generator function, advanced once and kept alive (suspended) ever after
                 @jaxtyped(typechecker=tc)
